@@ -318,6 +318,21 @@ func netShape(r *hlib.Rng, shape int, base int) ([]subnet, string) {
 		// IPv6 subnets that contain the v4-mapped block without being ::/0
 		return []subnet{mkNet("::/1", L(0)), mkNet("2001:db8::/32", L(1)), mkNet("10.0.0.0/8", L(2)),
 			mkNet("::ffff:0:0/90", L(3))}, "v6-over-v4block"
+	case 12:
+		// nested subnets that lead to the same location
+		return []subnet{mkNet("10.0.0.0/8", L(0)), mkNet("10.1.0.0/16", L(0)), mkNet("10.1.2.0/24", L(0)),
+			mkNet("10.2.0.0/16", L(1)), mkNet("0.0.0.0/0", L(2))}, "v4-nested-sameloc"
+	case 13:
+		return []subnet{mkNet("2001:db8::/32", L(0)), mkNet("2001:db8:1::/48", L(0)), mkNet("2001:db8:1:2::/64", L(0)),
+			mkNet("2001:db8:2::/48", L(1)), mkNet("::/0", L(2))}, "v6-nested-sameloc"
+	case 14:
+		// default routes with the same location as a nested subnet
+		return []subnet{mkNet("0.0.0.0/0", L(0)), mkNet("10.0.0.0/8", L(0)), mkNet("::/0", L(0)),
+			mkNet("2001:db8::/32", L(0)), mkNet("192.0.2.0/24", L(1))}, "default-sameloc"
+	case 15:
+		// adjacent siblings with one location, inside a parent with the same / another location
+		return []subnet{mkNet("10.0.0.0/24", L(0)), mkNet("10.0.1.0/24", L(0)), mkNet("10.0.0.0/16", L(0)),
+			mkNet("2001:db8::/48", L(1)), mkNet("2001:db8:1::/48", L(1)), mkNet("2001:db8::/32", L(2))}, "siblings-sameloc"
 	default:
 		// random laminar family
 		var res []subnet
@@ -350,7 +365,7 @@ func genConfig(r *hlib.Rng, idx int) *config {
 	// map ids: ECS maps 0x6500+i, resolver maps 0x6d00+i
 	E := func(i int) int { return 0x6501 + i }
 	M := func(i int) int { return 0x6d01 + i }
-	const nShapes = 13
+	const nShapes = 16
 	nNames := nShapes + 4
 	// resolver maps
 	c.Nets[M(0)] = []subnet{mkNet("0.0.0.0/0", 0x0001), mkNet("::/0", 0x0001), mkNet("198.51.100.0/24", 0x0002), mkNet("2001:db8:53::/48", 0x0003)}
@@ -1110,6 +1125,36 @@ func run(a *hlib.Args, e *hlib.Emitter) error {
 		for qi := 0; qi < perCfg; qi++ {
 			q, class := genQuery(r, c)
 			runQuery(func(x c10case) { e.Emit(x) }, c, ci, bks, q, class, qi%3 == 0, c.Text)
+		}
+		// systematic pass: for the nested shapes, a client inside every declared subnet
+		// at source lengths len, len+8 and the maximum (scope must be the length of
+		// the longest declared subnet, also when the enclosing one has the same location)
+		k := 0
+		for _, i := range []int{4, 6, 12, 13, 14, 15} {
+			name := fmt.Sprintf("s%d.z.test.", i)
+			for _, n := range c.Nets[chooseMap(c.Maps, "8", name)] {
+				na := un16(n.A)
+				v4 := isV4(na) && n.L >= 96
+				max, fam, off := 128, 2, 0
+				if v4 {
+					max, fam, off = 32, 1, 96
+				}
+				for _, l := range []int{n.L - off, n.L - off + 8, max} {
+					if l > max {
+						continue
+					}
+					a := na
+					for j := 0; j < 16; j++ { // interior address
+						a[j] |= byte(r.U64()) & ^maskByte(n.L, j)
+					}
+					a = maskTo(a, l+off)
+					q := query{Name: name, UDP: 1232, HasOp: true,
+						RIP: hlib.Ints(func() []byte { x := mustIP(resolvers[r.Intn(len(resolvers))]); return x[:] }()),
+						Opts: []qopt{{Code: 8, IsECS: true, Fam: fam, Src: l, Addr: addrBytesFor(fam, a, l, 0, r), Data: []int{}}}}
+					runQuery(func(x c10case) { e.Emit(x) }, c, ci, bks, q, fmt.Sprintf("inner-ecs%d", fam), k%4 == 0, c.Text)
+					k++
+				}
+			}
 		}
 		for _, b := range bks {
 			b.close()
